@@ -123,6 +123,14 @@ def run(P, rep, tier):
                        (isinstance(e.data['recv'], Unk) and e.data['recv'].src and e.data['recv'].src[0] == 'call'))]
                 splits = [i for i, e in enumerate(evs) if e.kind == 'summary-call' and e.data['callee'].name == 'split_lines']
                 indw = [i for i, e in enumerate(evs) if e.kind == 'stream-write' and e.data['stream'] is not fp]
+                # line endings of text are detected on the text itself (code-unit aligned), not on its encoded bytes
+                for e_ in evs:
+                    if e_.kind == 'summary-call' and e_.data['callee'].name == 'guess_line_endings' and kind != 'diff':
+                        a0 = e_.data['args'].get('text')
+                        if a0 is not content and not (isinstance(a0, Unk) and a0.kinds is not None and a0.kinds <= {'str'}):
+                            order_bad['detect-on-bytes'] = ('line endings of text content are detected on its encoded bytes: in '
+                                                            'UTF-16/32 a misaligned 0x0A byte pair is taken for a newline and the '
+                                                            'wrong line_endings / final newline is written')
                 # lines that receive indentation must be lines of split_lines(<encoded content>, newline)
                 for i_ in indw:
                     d_ = evs[i_].data['data']
